@@ -28,8 +28,8 @@ ASSUMPTIONS = ["a thread switch inside a single C call (deque.append, dict get/s
                "per-consumer order only: cross-consumer receive order is not observable without perturbing the schedule"]
 REQUIRED_PROBES = ["switch_inside_transport", "two_publishers_same_fresh_channel", "wildcard_subscription", "callback_mode"]
 CONFIG = {
-    "quick": {"runs": 20000, "budget_s": 120, "timeout_s": 20, "per_fork": 25},
-    "thorough": {"runs": 1500000, "budget_s": 1500, "timeout_s": 20, "per_fork": 50},
+    "quick": {"runs": 60000, "budget_s": 240, "timeout_s": 20, "per_fork": 25},
+    "thorough": {"runs": 3000000, "budget_s": 1500, "timeout_s": 20, "per_fork": 50},
     "shrink_s": 40.0,
 }
 TARGETS = ("execution/transport/in_memory.py", "execution/transport/base.py")
